@@ -107,7 +107,7 @@ func ruleEncoderContract(r *core.Run, p *core.Prog, rel string) {
 						out = append(out, ev{label: map[bool]string{true: "cap<need", false: "cap>=need"}[*cond] + ":" + core.Str(b.Y)})
 					}
 				}
-				for _, nm := range nonEmptyFacts(info, c, *cond) {
+				for _, nm := range nonEmptyFacts(info, c, *cond, f.Decl.Body) {
 					out = append(out, ev{label: "nonempty:" + nm})
 				}
 			}
@@ -359,7 +359,7 @@ func ruleEncoderContract(r *core.Run, p *core.Prog, rel string) {
 						}
 					}
 				}
-				for _, nm := range nonEmptyFacts(info, c, *cond) {
+				for _, nm := range nonEmptyFacts(info, c, *cond, f.Decl.Body) {
 					out = append(out, ev{label: "nonempty:" + nm})
 				}
 			}
@@ -653,7 +653,7 @@ func ruleSourcePointerNeverNil(r *core.Run, p *core.Prog, f *core.Fn, pData type
 					continue
 				}
 				if tk, isC := fg.Taken(path, i); isC {
-					for _, nm := range nonEmptyFacts(fi, n.(ast.Expr), tk) {
+					for _, nm := range nonEmptyFacts(fi, n.(ast.Expr), tk, fn.Decl.Body) {
 						if par != nil && nm == par.Name() {
 							nonEmpty = true
 						}
